@@ -17,7 +17,8 @@ RULE = ("well-formed PES starts from logical records: all 256 stream ids x PTS_D
         "random bytes as malformed stream (outcome class only). Non-trivial = distinct request inside the property's hypotheses")
 EXHAUSTIVE = True
 EXHAUSTIVE_NOTE = ("the grid stream_id (256) x PTS_DTS_flags (3) x header_data_length class (4) x data_alignment_indicator (2) is "
-                   "enumerated completely on every run, and every adaptation_field_length 0..255 is used for packets; the remaining "
+                   "enumerated completely on every run, as is every header_data_length 0..255 (for each PTS_DTS shape, one stream id "
+                   "in quick, eight in thorough), and every adaptation_field_length 0..255 is used for packets; the remaining "
                    "fields are sampled; the unbounded domain is covered by theorem C11_decode_ser")
 ASSUMPTIONS = ["a Go nil slice and an empty slice are the same observation (Data() is nil or non-empty in the code)",
                "callers pass slices with cap = len (DESIGN section 3)"]
@@ -182,6 +183,21 @@ def records(rng, tier):
                         plen = rng.choice((0, 1, 0xffff, 0x0100, 0x00ff, (3 + tslen + nex + dl) & 0xffff, rng.randrange(65536)))
                         recs.append(dict(id=sid, plen=plen, f6=f6, f7=f7, mode=mode, pts=pts if mode else 0,
                                          dts=dts if mode == 3 else 0, extra=extra, data=data))
+    # every header_data_length 0..255 that the PTS_DTS shape allows, for a few ids (all of them with optional header)
+    ids = [0xE0] if tier == "quick" else [0xE0, 0xC0, 0xBD, 0x00, 0xBC, 0xFE, 0xFD, rng.randrange(256)]
+    for sid in ids:
+        if sid in PLAIN:
+            continue
+        for mode in (0, 2, 3):
+            tslen = {0: 0, 2: 5, 3: 10}[mode]
+            for hdl in range(tslen, 256):
+                k += 1
+                dl = rng.choice((0, 1, 5, 20))
+                recs.append(dict(id=sid, plen=rng.randrange(65536), f6=0x80 | (4 if k % 2 else 0), f7=FLAGS7[k % len(FLAGS7)],
+                                 mode=mode, pts=TS_GRID[k % len(TS_GRID)] if mode else 0,
+                                 dts=TS_GRID[(k * 3 + 1) % len(TS_GRID)] if mode == 3 else 0,
+                                 extra=bytes(rng.choice((0xff, rng.randrange(256))) for _ in range(hdl - tslen)),
+                                 data=bytes(rng.randrange(256) for _ in range(dl))))
     return recs
 
 
